@@ -46,6 +46,12 @@ def _pos():
     return tuple(out)
 
 
+# a failed call before the threads start: writer_release() on a free lock is refused with RuntimeError by the first
+# statement of the unchanged code (nothing has been touched by then), so the lock must work as if nothing had happened.
+# (an unmatched reader_release() is not refused by the unchanged code either and stays outside the domain)
+FAULT = None
+
+
 class System:
     """one closed system: R readers, W writers, k rounds, optional 'hold' scenario"""
 
@@ -64,6 +70,11 @@ class System:
         self.rw = RWMOD.RWLock()
         S.adopt_locks(self.rw)          # mutexes made at import time (module globals, class-body defaults)
         S.adopt_locks(RWMOD)
+        if FAULT == "writer-release-on-free-lock":
+            try:
+                self.rw.writer_release()
+            except Exception:
+                pass
         self.locks = self._locks(self.rw)
         self.violations = []
         self.max_readers_in = 0
@@ -246,7 +257,7 @@ def dfs(ctx, label, R, W, rounds, hold=False, prefixes=None, lines=True, max_run
     capped = False
     transitions = 0
     max_readers = 0
-    case_base = {"kind": "schedule", "R": R, "W": W, "rounds": rounds, "hold": hold, "lines": lines,
+    case_base = {"kind": "schedule", "R": R, "W": W, "rounds": rounds, "hold": hold, "lines": lines, "fault": FAULT,
                  "programs": programs}
     while stack:
         if max_runs is not None and runs >= max_runs:
@@ -334,7 +345,7 @@ def replay_schedule(ctx, case):
 
 
 def random_schedules(ctx, label, R, W, rounds, examples, programs=None):
-    case_base = {"kind": "schedule", "R": R, "W": W, "rounds": rounds, "hold": False, "lines": True,
+    case_base = {"kind": "schedule", "R": R, "W": W, "rounds": rounds, "hold": False, "lines": True, "fault": FAULT,
                  "programs": programs}
 
     def body(c, picks):
@@ -380,6 +391,10 @@ def units(tier, seed):
         for p in itertools.product(range(R + W), repeat=2):
             out.append(("dfs", {"R": R, "W": W, "rounds": 1, "prefixes": [list(p)], "lines": True,
                                 "max_runs": 1500 if q else None}))
+    # the same after a refused call (writer_release on the free lock)
+    for (R, W, ln) in ((1, 1, True), (0, 2, True), (2, 0, True), (1, 2, False), (2, 1, False), (0, 3, False)):
+        out.append(("dfs", {"R": R, "W": W, "rounds": 1, "lines": ln, "fault": "writer-release-on-free-lock",
+                            "max_runs": 4000 if q else None}))
     # four / five threads at mutex granularity
     for (R, W) in ((3, 1), (2, 2)):
         for p in itertools.product(range(R + W), repeat=2):
@@ -404,9 +419,11 @@ def units(tier, seed):
 
 
 def run_unit(ctx, name, **kw):
+    global FAULT
+    FAULT = kw.get("fault")
     if name == "dfs":
-        label = "%dR%dW x%d%s%s" % (kw["R"], kw["W"], kw["rounds"], "/hold" if kw.get("hold") else "",
-                                    "" if kw.get("lines", True) else "/mutex-points-only")
+        label = "%dR%dW x%d%s%s%s" % (kw["R"], kw["W"], kw["rounds"], "/hold" if kw.get("hold") else "",
+                                      "" if kw.get("lines", True) else "/mutex-points-only", "/after-" + FAULT if FAULT else "")
         if kw.get("programs"):
             label = "+".join(kw["programs"]) + ("" if kw.get("lines", True) else "/mutex-points-only")
         runs, states, cut = dfs(ctx, label, kw["R"], kw["W"], kw["rounds"], kw.get("hold", False), kw.get("prefixes"),
@@ -422,4 +439,6 @@ def run_unit(ctx, name, **kw):
 
 
 def replay(ctx, case):
+    global FAULT
+    FAULT = case.get("fault")
     replay_schedule(ctx, case)
